@@ -27,14 +27,14 @@ pub fn def() -> PropDef {
     PropDef {
         id: "C06",
         level: "fault_enumeration",
-        rule: "every history of <= d operations over {insert a/ab/a\\xff, delete prefix a/'', remote older, remote newer, flush, snapshot-read, remove document, re-create document} (family A) and over {register peer 1/2, set policy 1/2, insert a, remove, re-create, flush} (family B) and, after filling the useful-peer cache to its capacity, over {register a new peer 1/2, the oldest / the newest cached peer again, insert a, flush} (family C) and, after 1100 entries below the prefix 'a' have been made durable, over {insert a, delete prefix a, delete prefix '', insert ab, flush} (family D: one operation supersedes more than a thousand entries) on a file-backed store; a baseline run numbers every store access point (hook at Store::tables/modify); then every placement of <= k 'transaction looks older than the commit delay' answers among the points where a write transaction is open, and in every such run a crash image (copy of the database file, live store untouched) at every access point and after every operation; each distinct image is reopened and must show the reference state after j complete operations with last-acknowledged-flush <= j <= operations-started, with records, by-key index, heads, point lookups, namespaces and authors mutually consistent; non-trivial = distinct (image content, window) pairs whose window spans an unacknowledged or in-progress operation",
+        rule: "every history of <= d operations over {insert a/ab/a\\xff, delete prefix a/'', remote older, remote newer, flush, snapshot-read, remove document, re-create document} (family A) and over {register peer 1/2, set policy 1/2, insert a, remove, re-create, flush} (family B) and, after filling the useful-peer cache to its capacity, over {register a new peer 1/2, the oldest / the newest cached peer again, insert a, flush} (family C) and, after 1100 entries below the prefix 'a' have been made durable, over {insert a, delete prefix a, delete prefix '', insert ab, flush} (family D: one operation supersedes more than a thousand entries) on a file-backed store; family E drives a file-backed store through its store actor: every history of <= d requests over {insert a, insert ab, delete prefix a, flush_store, a pause of 150 ms} issued back to back on one handle, the file copied right after every acknowledged flush must hold exactly the writes acknowledged before it, and so must the file after shutdown; for families A-D a baseline run numbers every store access point (hook at Store::tables/modify); then every placement of <= k 'transaction looks older than the commit delay' answers among the points where a write transaction is open, and in every such run a crash image (copy of the database file, live store untouched) at every access point and after every operation; each distinct image is reopened and must show the reference state after j complete operations with last-acknowledged-flush <= j <= operations-started, with records, by-key index, heads, point lookups, namespaces and authors mutually consistent; non-trivial = distinct (image content, window) pairs whose window spans an unacknowledged or in-progress operation",
         assumptions: &[
             "crash = process kill: the image is what the OS holds for the file at that instant; power loss, torn sectors and crashes inside redb's own commit are redb's contract",
             "an extra age-based commit caused by real elapsed time can only move the recovered state forward inside the accepted window, never raise an alarm",
         ],
         bound: |t| match t {
-            Tier::Quick => json!({"histories": "depth <= 4 over 11 operations with <= 1 forced-old answer; depth <= 3 with <= 2", "family_B": "depth <= 3 with <= 2", "family_C": "depth <= 2 with <= 2 after the filling prefix", "family_D": "depth <= 2 with <= 1 after 1100 durable entries below one prefix", "forced_old_answers": "<= 2"}),
-            Tier::Thorough => json!({"histories": "depth <= 5 with <= 1 forced-old answer; depth <= 4 with <= 2", "family_B": "depth <= 4 with <= 2", "family_C": "depth <= 3 with <= 2 after the filling prefix", "family_D": "depth <= 3 with <= 2 after 1100 durable entries below one prefix", "forced_old_answers": "<= 2"}),
+            Tier::Quick => json!({"histories": "depth <= 4 over 11 operations with <= 1 forced-old answer; depth <= 3 with <= 2", "family_B": "depth <= 3 with <= 2", "family_C": "depth <= 2 with <= 2 after the filling prefix", "family_D": "depth <= 2 with <= 1 after 1100 durable entries below one prefix", "family_E": "actor histories <= 4", "forced_old_answers": "<= 2"}),
+            Tier::Thorough => json!({"histories": "depth <= 5 with <= 1 forced-old answer; depth <= 4 with <= 2", "family_B": "depth <= 4 with <= 2", "family_C": "depth <= 3 with <= 2 after the filling prefix", "family_D": "depth <= 3 with <= 2 after 1100 durable entries below one prefix", "family_E": "actor histories <= 5", "forced_old_answers": "<= 2"}),
         },
         run,
         replay,
@@ -629,9 +629,139 @@ fn check_history_from(hist: &[Op], prefix_len: usize, max_forced: usize, report:
     }
 }
 
+// ---------------------------------------------------------------------------------------
+// Family E: the durability promise as applications get it — through the store actor
+// (`SyncHandle::flush_store`, which nodes call before they report "saved", and `shutdown`). Every
+// history of writes and flush requests, issued back to back on a long-lived handle; after every
+// acknowledged flush the database file is copied (the process "dies" there) and the copy must
+// show exactly the writes acknowledged so far.
+// ---------------------------------------------------------------------------------------
+
+#[derive(Debug, Clone, Copy, PartialEq, Eq, Serialize, Deserialize)]
+pub enum AOp {
+    InsA,
+    InsAb,
+    DelA,
+    Flush,
+    /// let 150 ms of real time pass (flushes that are close together vs. apart)
+    Pause,
+}
+
+const AOPS: [AOp; 5] = [AOp::InsA, AOp::InsAb, AOp::DelA, AOp::Flush, AOp::Pause];
+
+fn actor_history(hist: &[AOp]) -> Vec<(&'static str, Value, String)> {
+    use crate::sut::block_on;
+    use iroh_docs::actor::{OpenOpts, SyncHandle};
+    let mut bad = vec![];
+    let ns = ns_id(0);
+    let dir = scratch_dir();
+    let db = dir.path().join("live.redb");
+    set_clock(NOW);
+    let mut sut = Sut::persistent_with(&db, &[0]).expect("store");
+    sut.store.import_author(author(0)).expect("author");
+    sut.store.flush().expect("flush");
+    let h = SyncHandle::spawn(sut.store, None, "c06-actor".into());
+    block_on(h.open(ns, OpenOpts::default())).expect("open");
+    let mut model = ModelReplica::default();
+    for (i, op) in hist.iter().enumerate() {
+        let ts = T0 + 10 + i as u64;
+        match op {
+            AOp::InsA | AOp::InsAb | AOp::DelA => {
+                let cop = match op {
+                    AOp::InsA => Op::InsA,
+                    AOp::InsAb => Op::InsAb,
+                    _ => Op::DelA,
+                };
+                let e = local_entry(cop, ts);
+                set_clock(ts);
+                let res = if matches!(op, AOp::DelA) {
+                    block_on(h.delete_prefix(ns, author(0).id(), bytes::Bytes::copy_from_slice(e.key()))).map(|_| ())
+                } else {
+                    block_on(h.insert_local(ns, author(0).id(), bytes::Bytes::copy_from_slice(e.key()), e.content_hash(), e.content_len()))
+                };
+                set_clock(NOW);
+                if res.is_ok() {
+                    model.put(&e);
+                }
+            }
+            AOp::Pause => std::thread::sleep(std::time::Duration::from_millis(150)),
+            AOp::Flush => {
+                if let Err(e) = block_on(h.flush_store()) {
+                    bad.push(("flush_is_acknowledged", json!({"actor": true}), format!("step {i}: flush_store failed: {e:#}")));
+                    continue;
+                }
+                // the process dies right after the acknowledgement
+                let image = dir.path().join(format!("img{i}.redb"));
+                std::fs::copy(&db, &image).expect("copy");
+                let r = recover(&image, dir.path());
+                let _ = std::fs::remove_file(&image);
+                if let Some(e) = &r.open_error {
+                    bad.push(("reopen_ok", json!({"actor": true}), format!("image after the flush at step {i}: {e}")));
+                    continue;
+                }
+                if r.dump != model.dump() {
+                    bad.push((
+                        "acknowledged_before_flush_is_durable",
+                        json!({"actor": true, "missing": model.dump().iter().filter(|e| !r.dump.contains(e)).count()}),
+                        format!("through the store actor, history {hist:?}: the file copied right after the flush acknowledged at step {i} holds {} but the writes acknowledged before it give {}", show_entries(&r.dump), show_entries(&model.dump())),
+                    ));
+                }
+                for inc in r.inconsistencies {
+                    bad.push(("recovered_store_is_consistent", json!({"actor": true}), format!("image after the flush at step {i}: {inc}")));
+                }
+            }
+        }
+    }
+    // shutdown hands the store back; what it holds must be in the file once it is dropped
+    let store = block_on(h.shutdown());
+    drop(store);
+    let r = recover(&db, dir.path());
+    if r.open_error.is_some() || r.dump != model.dump() {
+        bad.push((
+            "acknowledged_before_flush_is_durable",
+            json!({"actor": true, "after_shutdown": true}),
+            format!("through the store actor, history {hist:?}: after shutdown (and dropping the store handed back) the file holds {} but the acknowledged writes give {} ({:?})", show_entries(&r.dump), show_entries(&model.dump()), r.open_error),
+        ));
+    }
+    bad
+}
+
+fn run_actor_family(ctx: &Ctx, report: &mut Report, ordinal: &mut u64) {
+    let depth = if ctx.quick() { 4 } else { 5 };
+    for d in 1..=depth {
+        for_each_sequence(AOPS.len(), d, |seq| {
+            let hist: Vec<AOp> = seq.iter().map(|&i| AOPS[i]).collect();
+            // histories that end with a flush and hold a write (the others are prefixes of those)
+            if hist.last() != Some(&AOp::Flush) || !hist.iter().any(|o| matches!(o, AOp::InsA | AOp::InsAb | AOp::DelA)) {
+                return;
+            }
+            if hist.iter().filter(|o| matches!(o, AOp::Pause)).count() > 1 {
+                return;
+            }
+            *ordinal += 1;
+            if !ctx.mine(*ordinal) {
+                return;
+            }
+            report.evaluations += 1;
+            report.nontrivial += 1;
+            report.count("family_E_actor_histories", 1);
+            let case = json!({"actor_hist": hist});
+            match catch(|| actor_history(&hist)) {
+                Err(p) => report.violation("no_panic", json!({"actor": true}), case, format!("panic: {p}"), *ordinal),
+                Ok(bad) => {
+                    for (o, w, d) in bad {
+                        report.violation(o, w, case.clone(), d, *ordinal);
+                    }
+                }
+            }
+        });
+    }
+}
+
 fn run(ctx: &Ctx, report: &mut Report) {
     crate::util::silence_panics();
     let mut ordinal = 0u64;
+    run_actor_family(ctx, report, &mut ordinal);
     let fams: Vec<(usize, usize)> = if ctx.quick() {
         vec![(4, 1), (3, 2)]
     } else {
@@ -692,6 +822,16 @@ fn run(ctx: &Ctx, report: &mut Report) {
 }
 
 fn replay(case: &Value) -> anyhow::Result<(bool, String)> {
+    if let Some(h) = case.get("actor_hist") {
+        let hist: Vec<AOp> = serde_json::from_value(h.clone())?;
+        return match catch(|| actor_history(&hist)) {
+            Err(p) => Ok((true, format!("panic: {p}"))),
+            Ok(bad) => {
+                let out: String = bad.iter().map(|(o, _, d)| format!("FAILED {o}: {d}\n")).collect();
+                Ok((!bad.is_empty(), format!("through the store actor: {hist:?}\n{out}")))
+            }
+        };
+    }
     let hist: Vec<Op> = serde_json::from_value(case["hist"].clone())?;
     let forced: BTreeSet<u64> = serde_json::from_value(case["forced"].clone())?;
     let dir = scratch_dir();
